@@ -47,6 +47,8 @@ class AsymmetricStepSolver(ScaledStepSolver):
         cols = matrix.indices
         col_index = matrix.indptr
 
+        missing = []
+
         for j in range(n):
             active = active_set[j]
 
@@ -66,12 +68,27 @@ class AsymmetricStepSolver(ScaledStepSolver):
             k = np.searchsorted(curr_cols, j)
 
             curr_data[:] = 0.0
+
+            if k == col_nnz:
+                # no stored entry at or beyond the diagonal (e.g. the
+                # diagonal entry cancelled exactly): add the unit entry below
+                missing.append(j)
+                continue
+
             curr_data[k] = 1.0
             curr_cols[k] = j
 
             assert (curr_cols[:-1] <= curr_cols[1:]).all()
             assert (0 <= curr_cols).all()
             assert (curr_cols < n + m).all()
+
+        if missing:
+            ones = np.ones((len(missing),), dtype=matrix.dtype)
+            matrix = matrix + sp.sparse.csr_matrix(
+                (ones, (missing, missing)), shape=matrix.shape
+            )
+
+        return matrix
 
     def compute_deriv(self, active_set: np.ndarray) -> sp.sparse.spmatrix:
         lamb = 1.0 / self.dt
@@ -97,7 +114,7 @@ class AsymmetricStepSolver(ScaledStepSolver):
             format="csr",
         )
 
-        self.overwrite_active_rows(deriv)
+        deriv = self.overwrite_active_rows(deriv)
 
         assert deriv.dtype == self.params.dtype
 
